@@ -46,6 +46,8 @@ type MaskCase struct {
 	Pad     int      `json:"pad,omitempty"`     // bytes of filler in one extra "options=xxxx" token (long connection strings)
 	PadAt   int      `json:"pad_at,omitempty"`  // token index before which the filler token is inserted
 	SqlLen  int      `json:"sql_len,omitempty"` // length of the SQL text carried next to the connection string (0: a short statement)
+	Many    int      `json:"many,omitempty"`    // that many short extra tokens "o<j>=<j>" (connection strings with many options)
+	ManyAt  int      `json:"many_at,omitempty"` // token index before which they are inserted
 }
 
 func (c MaskCase) dbc() string {
@@ -59,6 +61,11 @@ func (c MaskCase) dbc() string {
 			sb.WriteString("options=")
 			sb.WriteString(strings.Repeat("x", c.Pad))
 			sb.WriteString(sep)
+		}
+		if c.Many > 0 && i == c.ManyAt%len(c.Tokens) {
+			for j := 0; j < c.Many; j++ {
+				fmt.Fprintf(&sb, "o%d=%d%s", j, j, sep)
+			}
 		}
 		if t.K != "" {
 			sb.WriteString(t.K)
@@ -213,6 +220,11 @@ func drawMask(t *rapid.T) MaskCase {
 		c.Pad = rapid.SampledFrom([]int{3900, 4000, 4050, 4090, 4096, 4200, 8192, 32700, 32768, 60000}).Draw(t, "pad")
 		c.PadAt = rapid.IntRange(0, 8).Draw(t, "padat")
 	}
+	// one case in seven has many options (token counts around 16, 32, 64, 128, 256 and beyond)
+	if rapid.IntRange(0, 6).Draw(t, "many") == 0 {
+		c.Many = rapid.SampledFrom([]int{10, 15, 16, 24, 30, 31, 32, 33, 40, 63, 64, 65, 100, 127, 128, 129, 255, 256, 300, 1000}).Draw(t, "nmany")
+		c.ManyAt = rapid.IntRange(0, 8).Draw(t, "manyat")
+	}
 	if rapid.IntRange(0, 3).Draw(t, "longsql") == 0 {
 		c.SqlLen = rapid.SampledFrom([]int{100, 4096, 32767, 32768, 40000, 65535}).Draw(t, "sqllen")
 	}
@@ -335,7 +347,7 @@ func sepClass(s string) string {
 
 var maskSpec = pbt.Register(pbt.Spec[MaskCase]{
 	Prop: "C07", Name: "masking",
-	Rule:  "connection strings of 1..8 tokens (key=value, bare words, empty tokens, repeated keys, near-miss keys) separated by runs of spaces and/or semicolons, values containing '=', '#' and (in the pure styles) the other separator, 1..2 tokens with key `password` whose value contains a unique marker; pack Sql/SqlParam/Dbc (SQL text short, or in one case of four 100 .. 65535 bytes) x version of every family x Process() directly or through ToPack; Go/PHP: no string field contains a marker afterwards, other families: Dbc unchanged; non-trivial = Go or PHP version; distinct by (pack, version, path, connection string)",
+	Rule:  "connection strings of 1..8 tokens (key=value, bare words, empty tokens, repeated keys, near-miss keys) separated by runs of spaces and/or semicolons, values containing '=', '#' and (in the pure styles) the other separator, 1..2 tokens with key `password` whose value contains a unique marker; one string in six carries a filler token of 3900..60000 bytes, one in seven 10..1000 further short options (token counts around 16, 32, 64, 128, 256); pack Sql/SqlParam/Dbc (SQL text short, or in one case of four 100 .. 65535 bytes) x version of every family x Process() directly or through ToPack; Go/PHP: no string field contains a marker afterwards, other families: Dbc unchanged; non-trivial = Go or PHP version; distinct by (pack, version, path, connection string)",
 	Quick: 8000, Thorough: 100000,
 	Draw: drawMask, Run: runMask,
 })
